@@ -237,6 +237,86 @@ func (b *backend) applyFail(o storeOp) (out string) {
 	return "err"
 }
 
+// failUnderCap: a delivery to the file store whose source breaks off half-way while the mailbox is (possibly) at its cap
+func (b *backend) failUnderCap(c *core.Ctx, o storeOp, cap int, trace []string) {
+	list := func() ([]string, []string, bool) {
+		ms, err := b.st.GetMessages(o.box)
+		if err != nil {
+			c.Fail("mailbox-readable", trace, fmt.Sprintf("GetMessages(%q): %v", o.box, err), "")
+			return nil, nil, false
+		}
+		ids, encs := []string{}, []string{}
+		for _, m := range ms {
+			ids = append(ids, m.ID())
+			encs = append(encs, encImplMsg(b, m))
+		}
+		return ids, encs, true
+	}
+	ids0, enc0, ok := list()
+	if !ok {
+		return
+	}
+	b.waitEvents(0)
+	b.mu.Lock()
+	n0 := len(b.deleted)
+	b.mu.Unlock()
+	res := b.applyFail(o)
+	c.Compared(1)
+	if res != "err" {
+		c.Fail("failed-delivery-changes-nothing", trace, fmt.Sprintf("file store: a delivery whose source broke off answered %q", res), "")
+		return
+	}
+	check := func(when string) bool {
+		ids1, enc1, ok := list()
+		if !ok {
+			return false
+		}
+		k := len(ids0) - len(ids1)
+		most := len(ids0) - cap + 1
+		if most < 0 {
+			most = 0
+		}
+		if k < 0 || k > most || strings.Join(ids1, ",") != strings.Join(ids0[max(k, 0):], ",") {
+			c.Fail("failed-delivery-evicts-oldest-only", trace, fmt.Sprintf("%s: mailbox %q (cap %d) listed %v before the failed delivery and lists %v now: not the old listing minus at most %d of its oldest messages", when, o.box, cap, ids0, ids1, most), "")
+			return false
+		}
+		for i := range ids1 {
+			if enc1[i] != enc0[k+i] {
+				c.Fail("failed-delivery-keeps-the-rest-intact", trace, fmt.Sprintf("%s: message %s of %q reads %s, before the failed delivery it read %s", when, ids1[i], o.box, trunc(enc1[i], 300), trunc(enc0[k+i], 300)), "")
+				return false
+			}
+		}
+		if when == "right after" {
+			b.waitEvents(n0 + k)
+			cnt := map[string]int{}
+			b.mu.Lock()
+			for _, e := range b.deleted[min(n0, len(b.deleted)):] {
+				cnt[e]++
+			}
+			b.mu.Unlock()
+			for i, id := range ids0 {
+				want := 0
+				if i < k {
+					want = 1
+				}
+				if got := cnt[core.HexS(o.box)+"/"+id]; got != want {
+					c.Fail("deleted-event-exactly-for-the-evicted", trace, fmt.Sprintf("message %s of %q: %d deleted event(s) during the failed delivery, %d due (it is %s)", id, o.box, got, want, map[bool]string{true: "no longer listed", false: "still listed"}[i < k]), "")
+					return false
+				}
+			}
+		}
+		return true
+	}
+	if !check("right after") {
+		return
+	}
+	if err := b.reopen(); err != nil {
+		c.Fail("reopen-works", trace, err.Error(), "")
+		return
+	}
+	check("after reopening the store")
+}
+
 // dumpAll: every mailbox of the history as its listing shows it (ids as ranks, flags, sizes, content)
 func (b *backend) dumpAll(names []string) string {
 	var sb strings.Builder
@@ -660,8 +740,13 @@ func runStoreHistory(c *core.Ctx, m *core.Model, r *rand.Rand, p storeProfile, h
 		line := o.line()
 		if o.kind == "addfail" {
 			if o.id == 1 && cap > 0 {
-				o.id = 0
-				line = o.line()
+				// the source breaks off AFTER the file store has made room: the history ends here with implementation-only oracles (the evictions
+				// are real removals: oldest first, no more than the cap asks for, one deleted event each, durable; what stays listed is intact)
+				trace = append(trace, line)
+				c.H("op:addfail-variant-1-under-cap(last op)")
+				bf.failUnderCap(c, o, cap, append([]string{}, trace...))
+				c.Count(strings.Join(trace, "\n"), true)
+				return
 			}
 			trace = append(trace, line)
 			c.H(fmt.Sprintf("op:addfail-variant-%d", o.id))
